@@ -78,10 +78,12 @@ impl<'a, T: Read + Seek> QueueReader<'a, T> {
         // the points need no data at all and there are no data packets to read.
         // All values are defined by the prototype and can be generated directly.
         // This is done in chunks, the point iterators know when to stop.
-        const ZERO_SIZE_CHUNK: usize = 1024;
+        // The chunk size shrinks with the prototype size to limit the memory usage.
+        const ZERO_SIZE_CHUNK_VALUES: usize = 64 * 1024;
         let prototype = &self.pc.prototype;
         if !prototype.is_empty() && prototype.iter().all(|r| r.data_type.bit_size() == 0) {
-            return self.parse_byte_streams(self.available() + ZERO_SIZE_CHUNK);
+            let chunk = (ZERO_SIZE_CHUNK_VALUES / prototype.len()).max(1);
+            return self.parse_byte_streams(self.available() + chunk);
         }
 
         let packet_header = PacketHeader::read(self.reader)?;
